@@ -490,3 +490,13 @@ func fetchItemRequested(options *imap.FetchOptions, numKind imapwire.NumKind, s 
 //@   props C02:callsite
 //@   callsite Encoder.Mailbox(e *imapwire.Encoder, name string) requires name == ref || name == pattern
 //@   callsite Encoder.String(e *imapwire.Encoder, s string) requires false
+
+// Between the tagged OK of STARTTLS and the switch to TLS nothing more is read
+// from the plaintext stream: the upgrade directly follows the end of that
+// line (no further response is read, no look-ahead into the buffered reader),
+// so whatever was injected behind the OK is handed to the TLS layer
+// (upgradeStartTLS) and fails the handshake instead of being interpreted.
+//
+//@ func (c *Client) readResponse() (err error)
+//@   props C17:callsite
+//@   callsite Client.upgradeStartTLS requires __called("Client.readResponseTagged") && !__called("Client.readResponseData") && !__called("Client.readResponse") && !__calledPrefix("Reader.")
